@@ -55,6 +55,9 @@ def probe_force_fd(inp: Dict[str, Any]) -> Dict[str, Any]:
     fd = (4 * D2 - D1) / 3
     an = -float((F * d).sum())
     tol = max(50 * inp.get("eps", 1e-10), inp.get("tol", 4e-6))
+    if (inp.get("sp2") or [False])[0]:
+        # the purified density is only accurate to the SP2 tolerance (part of the requested thresholds); forces are first order in that error
+        tol = max(tol, 200 * float(inp["sp2"][1]))
     if abs(fd - an) > tol:
         bad.append(f"-F.d = {an:.8f} but dE/ds = {fd:.8f} (diff {abs(fd - an):.3e}, Richardson h={h})")
         kinds.add("fd")
@@ -85,6 +88,123 @@ def probe_force_fd(inp: Dict[str, Any]) -> Dict[str, Any]:
                        "uhf": uhf, "excited": bool(inp.get("excited"))}}
 
 
+def probe_dispersion_window(inp: Dict[str, Any]) -> Dict[str, Any]:
+    """optional pair correction with a switching function: place a non-bonded pair exactly in the switching window (found from the package's own
+    damping function by bisection) and compare the three force evaluators there; reverse mode is the exact derivative of the coded energy"""
+    import contextlib
+    import io
+
+    import torch
+    from seqm.Molecule import Molecule
+    from seqm.seqm_functions.constants import Constants
+    from seqm.seqm_functions.dispersion_am1_fs1 import dispersion_damping
+
+    za, zb = inp["pair"]
+
+    def fd(r):
+        sp0 = esh.settings(method="AM1", dispersion=True)
+        with contextlib.redirect_stdout(io.StringIO()):
+            val = {1: 1, 6: 4, 7: 5, 8: 6, 9: 7, 16: 6, 17: 7}
+            odd = (val[za] + val[zb]) % 2
+            m = Molecule(Constants(), sp0, torch.tensor([[[0.0, 0.0, 0.0], [r, 0.0, 0.0]]]), torch.tensor([[max(za, zb), min(za, zb)]]), charges=torch.tensor([float(odd)]))
+        return float(dispersion_damping(m)[0][0])
+    lo, hi = 0.8, 6.0
+    for _ in range(60):
+        mid = 0.5 * (lo + hi)
+        lo, hi = (mid, hi) if fd(mid) < 0.5 else (lo, mid)
+    rstar = 0.5 * (lo + hi)
+    # CH4 (or H2O) + H2 super-molecule, species sorted; the partner atom of the window pair is the first H of H2
+    host = inp.get("host", "ch4")
+    zh, xh = esh.geom(host)
+    ia = [i for i, z in enumerate(zh) if z == za][0]
+    rng = np.random.default_rng(inp.get("seed", 0))
+    u = rng.normal(size=3)
+    u /= np.linalg.norm(u)
+    bad, kinds, worst = [], set(), 0.0
+    for delta in inp.get("deltas", (-0.004, 0.0, 0.003)):
+        h1 = xh[ia] + u * rstar * (1.0 + delta)
+        v = np.cross(u, rng.normal(size=3))
+        v /= np.linalg.norm(v)
+        h2 = h1 + 0.74 * (0.6 * u + 0.8 * v)
+        z = list(zh) + [1, 1]
+        x = np.vstack([xh, h1, h2])
+        order = np.argsort(-np.array(z), kind="stable")
+        z, x = [z[i] for i in order], x[order]
+        F = {}
+        for mode in (None, [True], [True, "numerical"]):
+            sp = esh.settings(method="AM1", eps=1e-10, dispersion=True, analytical=mode)
+            F[str(mode)] = esh.run(np.array([z]), np.array([x]), sp)["force"][0]
+        for mode in ("[True]", "[True, 'numerical']"):
+            dd = float(np.abs(F[mode] - F["None"]).max())
+            worst = max(worst, dd)
+            if dd > 1e-5:
+                bad.append(f"pair Z=({za},{zb}) at {rstar * (1 + delta):.4f} A (switching distance {rstar:.4f} A): evaluator {mode} differs from reverse mode by {dd:.3e} eV/A")
+                kinds.add("cross")
+    return {"ok": not bad, "observed": bad[:4] or [f"switching distance {rstar:.4f} A, max evaluator difference {worst:.1e}"], "expected": "evaluators agree inside the switching window", "predicate": "",
+            "fields": {"kinds": sorted(kinds), "method": "AM1", "stratum_kind": "dispersion_window", "axis": "", "elements": sorted({za, zb}), "force_mode": "cross", "uhf": False, "excited": False}}
+
+
+def probe_post_hop_force(inp: Dict[str, Any]) -> Dict[str, Any]:
+    """surface-hopping engine (real): after some steps on one surface, the force recomputed for ANOTHER active state at the current geometry (what an
+    accepted hop does, from quantities cached on the molecule object) equals the force of a fresh evaluation on that state"""
+    import contextlib
+    import io
+
+    import torch
+
+    def work(_):
+        import seqm.NonadiabaticDynamics as ND
+        from seqm.Molecule import Molecule
+        from seqm.seqm_functions.constants import Constants
+
+        s, x, ch, mu = esh.batch(inp["names"])
+        ns = inp.get("n_states", 3)
+        sp = {"method": inp["method"], "scf_eps": 1e-10, "scf_converger": [1], "excited_states": {"n_states": ns, "method": "cis", "tolerance": 1e-8}}
+        out = {"molid": [0], "prefix": "/nonexistent/x", "print every": 0, "checkpoint every": 0, "xyz": 0, "h5": {}}
+        mol = Molecule(Constants(), sp, torch.as_tensor(x), torch.as_tensor(s))
+        dyn = ND.SurfaceHoppingDynamics(seqm_parameters=sp, timestep=0.5, Temp=600.0, output=out, initial_state=inp.get("initial_state", 2))
+        new = int(inp.get("new_state", 1))
+        calls = {"n": 0}
+        seen = {}
+
+        def hop(*a, **k):
+            # the random draw is replaced: request the hop to `new` for every trajectory at the chosen step, none otherwise (a downward hop is never frustrated)
+            calls["n"] += 1
+            t = torch.full((dyn._active_states.shape[0],), -1, dtype=torch.long)
+            if calls["n"] == inp.get("hop_at", 3):
+                t[:] = new - 1
+            return t
+        dyn._attempt_hop = hop
+        orig = dyn._recompute_active_force
+
+        def rec(molecule):
+            r_ = orig(molecule)
+            seen["F"] = molecule.force.detach().numpy().copy()
+            seen["x"] = molecule.coordinates.detach().numpy().copy()
+            seen["active"] = dyn._active_states.numpy().copy()
+            return r_
+        dyn._recompute_active_force = rec
+        with contextlib.redirect_stdout(io.StringIO()):
+            dyn.run(mol, steps=inp.get("steps", 4), reuse_P=True, remove_com=None, seed=inp.get("seed", 0))
+        if "F" not in seen:
+            return {"skipped": True}
+        F = seen["F"]
+        xx = seen["x"]
+        spf = esh.settings(method=inp["method"], eps=1e-10, converger=[1], excited={"n_states": ns, "method": "cis", "tolerance": 1e-8}, active_state=new, analytical=[True])
+        with contextlib.redirect_stdout(io.StringIO()):
+            fresh = esh.run(s, xx, spf)["force"]
+        return {"F": F, "fresh": fresh, "moved": float(np.abs(xx - x).max())}
+    r = mdh.call_with_timeout(work, None, 900)
+    if r.get("skipped"):
+        return {"ok": True, "observed": ["no accepted hop: skipped"], "expected": "", "predicate": "", "fields": {"kinds": [], "skipped": True, "method": inp["method"]}}
+    d = float(np.abs(r["F"] - r["fresh"]).max())
+    bad = []
+    if d > inp.get("tol", 2e-5):
+        bad.append(f"force recomputed for state S{inp.get('new_state', 1)} after {inp.get('steps', 3)} steps differs from a fresh evaluation at the same geometry by {d:.3e} eV/A (atoms moved {r['moved']:.3f} A since step 0)")
+    return {"ok": not bad, "observed": bad or [f"max difference {d:.1e}"], "expected": "post-hop force = force of the new state at the current geometry", "predicate": "",
+            "fields": {"kinds": ["post_hop"] if bad else [], "method": inp["method"], "stratum_kind": "post_hop", "axis": "", "elements": [], "force_mode": "analytical", "uhf": False, "excited": True}}
+
+
 def probe_evaluator_history(inp: Dict[str, Any]) -> Dict[str, Any]:
     """in ONE process: the same atom list evaluated analytically under a sequence of Hamiltonians (and semi-numerically); each force must equal the
     reverse-mode force of the same Hamiltonian (the evaluators share no hidden state keyed on the atom list alone)"""
@@ -101,7 +221,11 @@ def probe_evaluator_history(inp: Dict[str, Any]) -> Dict[str, Any]:
             "fields": {"kinds": ["evaluator_history"] if bad else [], "molecule": "+".join(names)}}
 
 
-PROBES = {"force_fd": probe_force_fd, "evaluator_history": probe_evaluator_history}
+PROBES = {"post_hop_force": probe_post_hop_force, "force_fd": probe_force_fd, "evaluator_history": probe_evaluator_history, "dispersion_window": probe_dispersion_window}
+
+
+def _dispatch(c):
+    return PROBES[c.get("_probe", "force_fd")](c)
 
 
 def gen_cases(ctx: Ctx):
@@ -137,6 +261,11 @@ def gen_cases(ctx: Ctx):
     cases.append({"names": ["ch4_dimer"], "method": "AM1", "dispersion": True, "stratum": "generic:", "seed": int(rng.integers(0, 10**6)), "cross": False, "tol": 4e-6})
     if ctx.thorough:
         cases.append({"names": ["ch4_dimer"], "method": "AM1", "dispersion": True, "analytical": [True], "stratum": "generic:", "seed": int(rng.integers(0, 10**6)), "cross": False})
+    cases.append({"_probe": "dispersion_window", "pair": [[6, 1], [1, 1], [8, 1]][ctx.seed % 3], "host": ["ch4", "ch4", "h2o"][ctx.seed % 3], "seed": int(rng.integers(0, 10**6))})
+    if ctx.thorough:
+        cases.append({"_probe": "dispersion_window", "pair": [1, 1], "host": "h2o", "seed": int(rng.integers(0, 10**6))})
+        cases.append({"_probe": "dispersion_window", "pair": [7, 1], "host": "nh3", "seed": int(rng.integers(0, 10**6))})
+    cases.append({"_probe": "post_hop_force", "names": [["ch2o"], ["h2o"]][ctx.seed % 2], "method": ["AM1", "PM3", "MNDO"][ctx.seed % 3], "steps": 4, "hop_at": 3, "initial_state": 2, "new_state": 1, "seed": int(rng.integers(0, 999))})
     # open shells (UHF doublet / triplet), ions are in the pools
     for nm, m in ([("no", "AM1"), ("oh", "PM3"), ("o2", "MNDO")] if ctx.thorough else [("oh", "AM1")]):
         cases.append({"names": [nm], "method": m, "uhf": True, "stratum": "generic:", "seed": 7, "cross": False, "eps": 1e-9})
@@ -246,10 +375,13 @@ def run(ctx: Ctx):
             continue
         ctx.probe_case("evaluator_history", c, r["ok"], fields=r["fields"], observed=r["observed"], expected=r["expected"], predicate=r["predicate"], stratum="history")
     cases = gen_cases(ctx)
-    results = mdh.pmap(probe_force_fd, cases, timeout=2400)
+    results = mdh.pmap(_dispatch, cases, timeout=2400)
     for c, r in zip(cases, results):
         if isinstance(r, Exception) or r is None:
             ctx.obligation("probe force_fd evaluated", False, repr(r)[-1500:], kind="harness")
+            continue
+        if c.get("_probe"):
+            ctx.probe_case(c["_probe"], c, r["ok"], fields=r["fields"], observed=r["observed"], expected=r["expected"], predicate=r["predicate"], stratum=c["_probe"], nontrivial=not r["fields"].get("skipped", False))
             continue
         ctx.probe_case("force_fd", c, r["ok"], fields=r["fields"], observed=r["observed"], expected=r["expected"], predicate=r["predicate"],
                        nontrivial=not r["fields"].get("skipped", False), stratum=c["method"] + "/" + r["fields"].get("force_mode", "?") + "/" + c.get("stratum", ""))
